@@ -225,12 +225,75 @@ def _configure():
         legs=[EXPLORE, SQLCONF])
 
 
-KANI_URGENCY = {"name": "kani:urgency", "tiers": ("thorough",), "run": lambda prop, tier, seed: kani_urgency(), "required": False}
+KANI_URGENCY = {"name": "kani:urgency", "tiers": ("quick", "thorough"), "run": lambda prop, tier, seed: kani_urgency(), "required": False}
 HTTP = bounded("http", "requests through the real actix handlers (in process): outcome encoding compared with the executable contract, body chunkings and sizes, malformed requests, allow-lists, Cache-Control")
 
 
 def kani_urgency():
-    raise Inconclusive("kani leg not built yet")
+    """Kani/CBMC, loop-free harnesses over kani::any(): full-domain proofs (C12) and the Ord axiom A7.
+    The real core crate of /repo's working tree is copied to a scratch directory, the harness module is appended
+    to the COPY of server.rs (the functions are private), cargo kani runs there, the copy is removed."""
+    import hashlib
+    key = repo_hash()[:24]
+    cdir = os.path.join(VERIF, "gen", "cache")
+    os.makedirs(cdir, exist_ok=True)
+    cp = os.path.join(cdir, "kani-urgency-%s.json" % key)
+    if os.path.exists(cp) and not os.environ.get("VERIF_NOCACHE"):
+        try:
+            d = json.load(open(cp))
+            d["cached_for_identical_sources"] = True
+            return d
+        except Exception:
+            pass
+    t0 = time.time()
+    scratch = tempfile.mkdtemp(prefix="tcss-kani-")
+    try:
+        shutil.copytree(os.path.join(REPO, "core"), os.path.join(scratch, "core"), ignore=shutil.ignore_patterns("target"))
+        for f in ("Cargo.toml", "Cargo.lock"):
+            shutil.copy(os.path.join(REPO, f), os.path.join(scratch, f))
+        ct = open(os.path.join(scratch, "Cargo.toml")).read()
+        ct = re.sub(r'\n\s*"server",', "", ct)
+        ct = re.sub(r'\n\s*"sqlite",', "", ct)
+        open(os.path.join(scratch, "Cargo.toml"), "w").write(ct)
+        harness = open(os.path.join(VERIF, "kani", "urgency_harness.rs")).read()
+        with open(os.path.join(scratch, "core", "src", "server.rs"), "a") as f:
+            f.write(harness)
+        env = dict(os.environ, CARGO_NET_OFFLINE="true")
+        cmd = ["cargo", "kani", "-p", "taskchampion-sync-server-core", "--target-dir", os.path.join(TARGET, "kani"), "-Z", "concrete-playback", "--concrete-playback=print"]
+        try:
+            p = subprocess.run(cmd, cwd=scratch, capture_output=True, text=True, env=env, timeout=900)
+        except subprocess.TimeoutExpired:
+            raise Inconclusive("kani timed out")
+        out = p.stdout + p.stderr
+    finally:
+        shutil.rmtree(scratch, ignore_errors=True)
+    harnesses = []
+    cur = None
+    for line in out.splitlines():
+        m = re.match(r"Checking harness (\S+?)\.\.\.", line)
+        if m:
+            cur = {"harness": m.group(1), "status": None, "failed_checks": []}
+            harnesses.append(cur)
+        elif cur is not None and line.startswith("VERIFICATION:-"):
+            cur["status"] = line.split(":-")[1].strip()
+        elif cur is not None and line.startswith("Failed Checks:"):
+            cur["failed_checks"].append(line[len("Failed Checks:"):].strip())
+        elif cur is not None and line.startswith("Verification Time:"):
+            cur["time_s"] = float(line.split(":")[1].strip().rstrip("s"))
+    if not harnesses:
+        raise Inconclusive("kani produced no harness results (the harness no longer compiles against core/src/server.rs?): " + out[-400:])
+    playback = re.findall(r"```\n(.*?)```", out, re.S)
+    viol = []
+    for h in harnesses:
+        if h["status"] != "SUCCESSFUL":
+            viol.append({"kind": "kani", "name": "kani:" + h["harness"], "what": "Kani/CBMC refuted harness %s: %s" % (h["harness"], "; ".join(h["failed_checks"][:4])),
+                         "counterexample": {"harness": h["harness"], "failed_checks": h["failed_checks"], "concrete_playback_unit_test": playback[:2]}})
+    d = {"name": "kani:urgency", "bounded": False, "status": "violation" if viol else "passed", "backend": "kani-0.68/cbmc-6.11",
+         "what": "loop-free harnesses over kani::any(): for_days / for_versions_since equal the widened-arithmetic spec for every target and measure, never panic for any i64/u32 target, high threshold >= low, monotone in the measure; derived Ord on SnapshotUrgency (A7). Loop-free and full-domain: complete proofs, not bounded.",
+         "cmd": " ".join(cmd) + "   (in a scratch copy of /repo/core with kani/urgency_harness.rs appended to server.rs)", "harnesses": harnesses,
+         "obligations": len(harnesses), "discharged": len([h for h in harnesses if h["status"] == "SUCCESSFUL"]), "violations": viol, "wall_s": round(time.time() - t0, 1)}
+    json.dump(d, open(cp, "w"))
+    return d
 
 
 _configure()
